@@ -105,6 +105,8 @@ def build(tier="quick", seed=0):
             b.subset_exits.append(f"{FMOD}::{name}: {e}")
     vectorisers(b)
     lookup(b)
+    lookup_tables(b)
+    frequency_dependent_variants(b)
     legacy(b)
     b.assume("pow(x,a) > 0, tgamma(1+alpha) > 0, cos(pi alpha/2) > 0 and sin(pi alpha/2) > 0 for alpha in (0,1), cos^2+sin^2 = 1 (axioms); isinf(x) is false for the finite reals of the model")
     b.assume("thread-count independence of prange: the vectoriser loops carry no state between iterations (frame obligation), so any schedule gives the same array")
@@ -298,6 +300,89 @@ def lookup(b):
     ex = Exec(fn, globals_env=genv_)
     paths = ex.run(dict(rheology_name="no-such-law"))
     ground(b, f"{fn.key}::unknown_raises", fn.key, "an unknown name raises instead of returning a model", len(paths) == 1 and paths[0].outcome == "raise")
+
+
+def lookup_tables(b):
+    """"through the name lookup": the interpreted lookup tables (known_models / known_model_live_args / known_model_const_args) are built from the
+    `!TPY_args live:` / `!TPY_args const:` lines of each model's docstring, and the OOP layer then calls  func(frequency, *live, *const).  For that
+    call to be the scalar call of the statement, the documented argument lists, in their order, must be exactly the function's parameters after
+    `frequency` - live ones first."""
+    try:
+        src = source(FLEG)
+    except ExtractError as e:
+        b.subset_exits.append(str(e))
+        return
+    import re
+    models = [n_ for n_ in src.tree.body if isinstance(n_, ast.FunctionDef) and n_.args.args and n_.args.args[0].arg == "frequency"]
+    if not models:
+        b.subset_exits.append(f"{FLEG}: no model functions found")
+        return
+    for fnode in models:
+        key = f"{FLEG}::{fnode.name}"
+        doc = ast.get_docstring(fnode) or ""
+        live = re.findall(r"!TPY_args live:\s*(.*)", doc)
+        const = re.findall(r"!TPY_args const:\s*(.*)", doc)
+        names = lambda lst: [x_.strip().replace("self.", "") for x_ in (lst[0].split(",") if lst else []) if x_.strip() and x_.strip().lower() != "none"]
+        n_live = len(names(live))           # live names are attributes of the model holder (self.compliance ...): their number and order matter, not their spelling
+        documented = names(const)           # constant names are configuration keys = parameter names: passed positionally after the live ones
+        params_all = [a_.arg for a_ in fnode.args.args][1:]
+        params = params_all[n_live:]
+        if not live and not const:
+            structural(b, f"{key}::lookup_arguments", key, "the model documents its live / constant arguments for the lookup tables", "unknown", detail="no !TPY_args lines")
+            continue
+        ok = documented == params and n_live <= len(params_all)
+        ground(b, f"{key}::lookup_arguments", key, "the `!TPY_args const:` list names exactly the parameters that follow `frequency` and the live arguments, in signature order: a model obtained through the name lookup is called with every constant in its own position",
+               ok, detail=f"documented {documented}; signature {params}", refuted_model=None if ok else dict(documented=str(documented), signature=str(params)))
+
+
+def frequency_dependent_variants(b):
+    """sundberg_freq is voigt + andrade_freq with every argument in its own position (the composition the plain sundberg has with andrade)"""
+    from tpv.symex import Exec, SymExError
+    try:
+        fn = Fn(FLEG, "sundberg_freq")
+    except ExtractError as e:
+        b.subset_exits.append(str(e))
+        return
+    b.add_fn(fn)
+    names = ("frequency", "compliance", "viscosity", "voigt_compliance_offset", "voigt_viscosity_offset", "alpha", "zeta", "critical_freq", "critical_freq_falloff")
+    A = {k_: R("sf_" + k_) for k_ in names}
+    if [a_ for a_ in fn.params] != list(names):
+        structural(b, f"{fn.key}::composition", fn.key, "sundberg_freq takes (frequency, compliance, viscosity, voigt offsets, alpha, zeta, critical frequency, fall-off)", "unknown", detail=str(fn.params))
+        return
+    rec = []
+
+    def stub(nm, val):
+        def f(ex, node, *a_, **k_):
+            rec.append((nm, tuple(a_), dict(k_)))
+            return val
+        return f
+    JA, JV = Cx(R("J_andrade_re"), R("J_andrade_im")), Cx(R("J_voigt_re"), R("J_voigt_im"))
+    ex = Exec(fn, globals_env=dict(andrade_freq=stub("andrade_freq", JA), voigt=stub("voigt", JV)), opts=dict(definedness=False, auto_inline_same_module=False))
+    try:
+        paths = ex.run(dict(A))
+    except SymExError as e:
+        b.subset_exits.append(f"{fn.key}: {e}")
+        return
+    rets = [p_ for p_ in paths if p_.outcome == "return"]
+    if len(paths) != 1 or len(rets) != 1:
+        b.subset_exits.append(f"{fn.key}: {[p_.outcome for p_ in paths]}")
+        return
+    want = {"andrade_freq": ("frequency", "compliance", "viscosity", "alpha", "zeta", "critical_freq", "critical_freq_falloff"),
+            "voigt": ("frequency", "compliance", "viscosity", "voigt_compliance_offset", "voigt_viscosity_offset")}
+    ok = sorted(r_[0] for r_ in rec) == ["andrade_freq", "voigt"]
+    detail = ""
+    if ok:
+        for nm, a_, k_ in rec:
+            pn = Fn(FLEG, nm).params
+            bound = dict(zip(pn, a_), **k_)
+            for q_ in want[nm]:
+                if bound.get(q_) is not A[q_]:
+                    ok = False
+                    detail += f"{nm}({q_}={bound.get(q_)}); "
+    v = Cx.of(rets[0].value)
+    ok_sum = ok and sp.simplify(v.re - (JA.re + JV.re)) == 0 and sp.simplify(v.im - (JA.im + JV.im)) == 0
+    ground(b, f"{fn.key}::composition", fn.key, "ensures sundberg_freq == voigt(...) + andrade_freq(...) with every argument (alpha, zeta, critical frequency, fall-off, Voigt offsets) passed in its own position", ok_sum,
+           detail=detail or str(rec)[:300], refuted_model=None if ok_sum else dict(wrong=detail[:200]))
 
 
 def legacy(b):
